@@ -465,6 +465,29 @@ func main() {
 		}
 	}
 	facts["noReentrantLocking"] = len(reentrantLocking(files)) == 0
+	// where goroutines are started: the model knows the accept loops (Start) and one goroutine per connection (startConn)
+	var goSites []string
+	for _, f := range files {
+		for _, d := range f.Decls {
+			fd, ok := d.(*ast.FuncDecl)
+			if !ok || fd.Body == nil {
+				continue
+			}
+			name := fd.Name.Name
+			if fd.Recv != nil && len(fd.Recv.List) > 0 {
+				typ, _ := recvType(fd)
+				name = typ + "." + name
+			}
+			ast.Inspect(fd.Body, func(n ast.Node) bool {
+				if _, ok := n.(*ast.GoStmt); ok {
+					goSites = append(goSites, name)
+				}
+				return true
+			})
+		}
+	}
+	sort.Strings(goSites)
+	facts["goroutinesOnlyFromStartAndStartConn"] = strings.Join(goSites, ",") == "Server.Start,Server.Start,Server.startConn"
 	sort.Strings(commands)
 	var sb strings.Builder
 	sb.WriteString("/-! GENERATED by harness/cmd/extract from /repo's source on every check run. Do not edit. -/\n")
